@@ -11,3 +11,5 @@ open Neutrino.Shutdown
 #print axioms C17_cond_wakers
 #print axioms C17_discharge_used
 #print axioms C17_quits_are_closed
+#print axioms C17_capacity_checked
+#print axioms C17_callbacks_on_workers
